@@ -37,6 +37,11 @@ def node_po3(a, b='db', c='dc', /, *rest, k='dk'):
   return vfx.rec('node_po3', locals())
 
 
+def node_va(a='da', *args):
+  """A named parameter below *args."""
+  return vfx.rec('node_va', locals())
+
+
 def node_pos2(p0='dp0', /, a='da', *va):
   """Positional-only + *args, no **kwargs."""
   return vfx.rec('node_pos2', locals())
